@@ -52,8 +52,9 @@ def strip_banner(text):
 # the one difference its finding describes; anything else still differs afterwards.
 import re  # noqa: E402
 
-_NATIVE_CODE = re.compile(r'<code object (\S+) at 0xADDR\d+, file "([^"\n]*)", line (\d+)>')
-_PORTABLE_CODE = re.compile(r'<Code\w+ code object (\S+) at 0xADDR\d+, file ([^>\n]*)>, line (\d+)')
+# (the name may contain spaces and angle brackets: "<generic parameters of Alias>")
+_NATIVE_CODE = re.compile(r'<code object ([^\n]+?) at 0xADDR\d+, file "([^"\n]*)", line (\d+)>')
+_PORTABLE_CODE = re.compile(r'<Code\w+ code object ([^\n]+?) at 0xADDR\d+, file ([^>\n]*)>, line (\d+)')
 _SET_LITERAL = re.compile(r'\{([^{}\n]*)\}')
 
 
